@@ -25,7 +25,7 @@ def check(rep, tier, seed):
         r = SplitMix(seed * 7919 + k)
         toks = []
         for _ in range(ntests):
-            kind = r.choice(["pl", "pl", "pl", "ppl", "rl", "tl", "tpl"])
+            kind = r.choice(["pl", "pl", "pl", "ppl", "rl", "tl", "tpl", "cl", "cl"])
             pre = r.choice([-1] + bounds + [total]) + r.choice([0, 0, -1, 1, -40]) if r.chance(1, 2) else r.below(total + 1)
             pre = max(-1, min(total, pre))
             preread = r.choice([0, 0, 1, 50, 3000, 100000])
@@ -128,7 +128,8 @@ def check(rep, tier, seed):
     bad_prop2, bad_tie = vfx.classify(results2, [c[1] for c in cases2], os.path.join(wd, "hist"), rep, dist2)
     bad_prop += bad_prop2
     dist["histories"] = dist2
-    rep.coverage["rule"] = ("chained files (differing channels, rates, short-block sizes incl. 64) x lapped pcm/page/raw/time seeks from random old "
+    rep.coverage["rule"] = ("chained files (differing channels, rates, short-block sizes incl. 64) x lapped pcm/page/raw/time seeks and ov_crosslap (old "
+                            "handle -> a fresh handle sought to the target, compared with that handle's plain twin) from random old "
                             "positions (link ends, end of stream, after long reads) on twin handles: same return/landing as the plain seek, "
                             "bit-identical from min(n1,n2) samples on, inside = new*w^2 + old*(1-w^2) (extra new channels faded from silence); "
                             "EOF-without-lapping only when nothing follows the target or there is no decode state; non-trivial = a lapped seek succeeded. "
